@@ -108,7 +108,8 @@ def run(ctx):
 
             k = rng.randint(1, len(doc) - 1)
             with tempfile.TemporaryDirectory(prefix="verif_c07_") as td:
-                f1, f2 = os.path.join(td, "a.dec"), os.path.join(td, "b.dec")
+                n1, n2 = rng.choice([("a.dec", "b.dec"), ("main.dec", "analysis.dec"), ("f2.dec", "f10.dec"), ("user.dec", "DECAY.DEC")])
+                f1, f2 = os.path.join(td, n1), os.path.join(td, n2)
                 open(f1, "w").write(render_doc(doc[:k]) + rng.choice(["# end of the common part", "", "#"]))
                 open(f2, "w").write(render_doc(doc[k:]))
                 try:
